@@ -8,6 +8,8 @@ import (
 	"os"
 	"path/filepath"
 	"sort"
+	"strings"
+	"sync"
 
 	"github.com/whawty/auth/sasl"
 	"github.com/whawty/auth/zz_verif/ref"
@@ -225,6 +227,88 @@ func c13() {
 		}
 		R.Mark(id)
 		c13Decode(R, rng, id, in)
+	}
+	c13Retained(R, rng)
+}
+
+// c13Retained: the bytes an encoder call returned stay what they were - a caller may encode a batch of messages (or
+// several goroutines may encode at the same time) before any of the results is written out.
+func c13Retained(R *vr.Result, rng *rand.Rand) {
+	type kept struct {
+		what      string
+		got, want []byte
+	}
+	mk := func(i int) (string, func() ([]byte, error), []byte) {
+		if i%3 == 2 {
+			ok := i%2 == 0
+			msg := content(rng, 1, rng.Intn(40))
+			text := map[bool]string{true: "OK", false: "NO"}[ok]
+			if len(msg) > 0 {
+				text += " " + string(msg)
+			}
+			r := sasl.Response{Result: ok, Message: string(msg)}
+			return fmt.Sprintf("response(%v,%d bytes)", ok, len(msg)), r.Marshal, ref.EncodeParts([]byte(text))
+		}
+		f := [4][]byte{content(rng, i%3, 1+rng.Intn(40)), content(rng, 1, rng.Intn(300)%257), content(rng, 0, rng.Intn(10)), content(rng, 0, rng.Intn(10))}
+		q := sasl.Request{Login: string(f[0]), Password: string(f[1]), Service: string(f[2]), Realm: string(f[3])}
+		return fmt.Sprintf("request%v", lensOf(f)), q.Marshal, ref.EncodeParts(f[0], f[1], f[2], f[3])
+	}
+	check := func(id string, ks []kept) {
+		for i, k := range ks {
+			R.Case(fmt.Sprintf("retained|%s|%d|%x", id, i, k.want), true)
+			R.Count("retained_encodings_compared", 1)
+			if !bytes.Equal(k.got, k.want) {
+				R.Violate("c13:encoding-changes-after-later-encode:"+strings.SplitN(id, "/", 2)[0], fmt.Sprintf("the bytes returned by Marshal for %s (#%d of a batch of %d) no longer equal the wire format once the later messages of the batch have been encoded: the returned slice shares memory with later calls", k.what, i, len(ks)), "retained/"+id, map[string]any{"got": vr.Hex(k.got), "want": vr.Hex(k.want)})
+				return
+			}
+		}
+	}
+	if R.Want("retained/batch") {
+		R.Mark("retained/batch")
+		for b := 0; b < vr.Pick(40, 400); b++ {
+			var ks []kept
+			for i := 0; i < 2+rng.Intn(12); i++ {
+				what, f, want := mk(b + i)
+				var got []byte
+				var err error
+				if p := vr.Safe(func() { got, err = f() }); p != "" || err != nil {
+					continue
+				}
+				ks = append(ks, kept{what, got, want})
+			}
+			check(fmt.Sprintf("batch/%d", b), ks)
+		}
+	}
+	if R.Want("retained/concurrent") {
+		R.Mark("retained/concurrent")
+		type job struct {
+			what string
+			f    func() ([]byte, error)
+			want []byte
+		}
+		var jobs []job
+		for i := 0; i < vr.Pick(2000, 20000); i++ {
+			w, f, want := mk(i)
+			jobs = append(jobs, job{w, f, want})
+		}
+		res := make([][]kept, 8)
+		var wg sync.WaitGroup
+		for w := 0; w < 8; w++ {
+			wg.Add(1)
+			go func(w int) {
+				defer wg.Done()
+				for i := w; i < len(jobs); i += 8 {
+					got, err := jobs[i].f()
+					if err == nil {
+						res[w] = append(res[w], kept{jobs[i].what, got, jobs[i].want})
+					}
+				}
+			}(w)
+		}
+		wg.Wait()
+		for w := range res {
+			check(fmt.Sprintf("concurrent/%d", w), res[w])
+		}
 	}
 }
 
